@@ -516,6 +516,67 @@ theorem update_preserves (t : Table) (c : Cond) (sets : List (Nat × Value)) (t'
       exact hp.1
     · exact matching_ids_nodup t c hi.1
 
+/-! ## batch_insert = the same inserts one by one (when every row is valid) -/
+
+theorem insert_eq_raw (t : Table) (vals : List Value) (hl : vals.length = t.schema.length)
+    (hv : validateRow t.schema vals = none) : insert t vals = .ok (insertRaw t vals) := by
+  unfold insert insertRaw
+  simp [hl, hv]
+
+theorem insertRaw_schema (t : Table) (vals : List Value) : (insertRaw t vals).1.schema = t.schema := rfl
+
+theorem validateBatch_cons (schema : List (ColType × Bool)) (vals : List Value) (rest : List (List Value))
+    (h : validateBatch schema (vals :: rest) = none) :
+    vals.length = schema.length ∧ validateRow schema vals = none ∧ validateBatch schema rest = none := by
+  unfold validateBatch at h
+  split at h
+  · cases h
+  · rename_i hl
+    split at h
+    · cases h
+    · rename_i hv
+      exact ⟨by simpa using hl, hv, h⟩
+
+/-- the fold of `batch_insert` is the fold of single inserts -/
+theorem batchFold_eq_inserts : ∀ (rows : List (List Value)) (t : Table) (acc : List Nat),
+    validateBatch t.schema rows = none →
+    (rows.foldl batchStep (t, acc)).1 = rows.foldl (fun t v => applyOp t (.insert v)) t := by
+  intro rows
+  induction rows with
+  | nil => intro t acc _; rfl
+  | cons vals rest ih =>
+    intro t acc h
+    obtain ⟨hl, hv, hr⟩ := validateBatch_cons t.schema vals rest h
+    rw [List.foldl_cons, List.foldl_cons]
+    have e : applyOp t (.insert vals) = (insertRaw t vals).1 := by
+      simp only [applyOp, insert_eq_raw t vals hl hv]
+    rw [e]
+    exact ih (insertRaw t vals).1 _ (by rw [insertRaw_schema]; exact hr)
+
+theorem batchInsert_eq_inserts (t : Table) (rows : List (List Value)) (t' : Table) (ids : List Nat)
+    (h : batchInsert t rows = .ok (t', ids)) :
+    t' = rows.foldl (fun t v => applyOp t (.insert v)) t := by
+  unfold batchInsert at h
+  cases hv : validateBatch t.schema rows with
+  | some e => simp [hv] at h
+  | none =>
+    simp only [hv, Except.ok.injEq] at h
+    rw [← batchFold_eq_inserts rows t [] hv, h]
+
+theorem insertsFold_preserves : ∀ (rows : List (List Value)) (t : Table), IdxInv t →
+    IdxInv (rows.foldl (fun t v => applyOp t (.insert v)) t) := by
+  intro rows
+  induction rows with
+  | nil => intro t hi; exact hi
+  | cons vals rest ih =>
+    intro t hi
+    rw [List.foldl_cons]
+    apply ih
+    simp only [applyOp]
+    cases h : insert t vals with
+    | error e => exact hi
+    | ok p => obtain ⟨t', id⟩ := p; exact insert_preserves t vals t' id hi h
+
 /-- every operation preserves the invariant; a failing operation leaves the table unchanged -/
 theorem applyOp_preserves (t : Table) (op : Op) (hi : IdxInv t) : IdxInv (applyOp t op) := by
   cases op with
@@ -550,6 +611,15 @@ theorem applyOp_preserves (t : Table) (op : Op) (hi : IdxInv t) : IdxInv (applyO
     cases h : dropOrdIndex t c with
     | error e => exact hi
     | ok t' => exact dropOrd_preserves t c t' hi h
+  | batchInsert rows =>
+    simp only [applyOp]
+    cases h : batchInsert t rows with
+    | error e => exact hi
+    | ok p =>
+      obtain ⟨t', ids⟩ := p
+      simp only
+      rw [batchInsert_eq_inserts t rows t' ids h]
+      exact insertsFold_preserves rows t hi
 
 theorem idxInv_empty (schema : List (ColType × Bool)) : IdxInv (Table.empty schema) :=
   ⟨⟨by simp [Table.empty], by simp [Table.empty]⟩, by simp [Table.empty], by simp [Table.empty], by simp [Table.empty]⟩
